@@ -475,8 +475,6 @@ def evalList (W : World) : Nat → Ctx → St → List Node → R (List Node)
         else if !hasAttr attrs (S "v-if") && (hasAttr attrs (S "v-else-if") || hasAttr attrs (S "v-else")) then evalList W f ctx st rest
         else if hasAttr attrs (S "v-for") then
           bindR (evalVFor W f ctx st tag attrs kids rest) (fun rs st1 => prepend rs.1 (evalList W f ctx st1 (rest.drop rs.2)))
-        else if tag == S "slot" then
-          bindR (evalSlot W f ctx st attrs kids) (fun res st1 => prepend res (evalList W f ctx st1 rest))
         else if hasAttr attrs (S "v-if") then
           bindE (chainSelect (evalCondition W.P st.stack) (getAttr attrs (S "v-if")) rest) (fun ps =>
             match ps.1 with
@@ -490,6 +488,9 @@ def evalList (W : World) : Nat → Ctx → St → List Node → R (List Node)
                  | none => evalList W f ctx st (rest.drop ps.2)
                  | some st' => bindR (evalAsElement W f ctx st' t a k) (fun res st1 => prepend res (evalList W f ctx st1 (rest.drop ps.2))))
               | _ => evalList W f ctx st (rest.drop ps.2))
+        -- a <slot> is reached after the chain test: a slot that carries a chain directive is a chain member (fix: conditional slot)
+        else if tag == S "slot" then
+          bindR (evalSlot W f ctx st attrs kids) (fun res st1 => prepend res (evalList W f ctx st1 rest))
         else if tag == S "template" then
           bindR (evalTemplate W f ctx st attrs kids) (fun res st1 =>
             prepend (if hasAttr attrs (S "v-keep") then [.elem tag (keptAttrs W.P st.stack attrs) res] else res) (evalList W f ctx st1 rest))
@@ -510,6 +511,8 @@ def evalAsElement (W : World) : Nat → Ctx → St → Str → List Attr → Lis
   | f + 1, ctx, st, tag, attrs, kids =>
     let vFor := getAttr attrs (S "v-for")
     if vFor != [] then evalFor W f ctx st tag attrs kids vFor
+    -- a <slot> that is a chain member is still a slot (fix: conditional slot)
+    else if tag == S "slot" then evalSlot W f ctx st attrs kids
     else if tag == S "template" then
       -- a chain member that is an include (or a component tag rewritten to one) includes its component (fix: conditional include)
       if hasAttr attrs (S "include") then evalTemplate W f ctx st attrs kids
